@@ -405,6 +405,54 @@ def check_case(ctx, case):
         ctx.nontrivial(case, sample=case)
 
 
+def check_shared_response(ctx, case):
+    """One prepared HTTPResponse / HTTPError object answers several requests (the module-level error object idiom) while an error handler / the
+    handler itself appends a header value to the application response afterwards: every response emits the prepared values plus ITS OWN appended
+    value, once each and in order - never values appended while earlier requests were answered."""
+    import ombott
+    app = ombott.Ombott()
+    cls = ombott.HTTPError if case['cls'] == 'HTTPError' else ombott.HTTPResponse
+    prepared = cls(418, 'prepared') if cls is ombott.HTTPError else cls('prepared', 418)
+    for v in case['own']:
+        prepared.headers.append('Link', v)
+    prepared.headers['X-Single'] = 'one'
+    n = [0]
+
+    def handler():
+        n[0] += 1
+        if case['how'] == 'raise':
+            raise prepared
+        return prepared
+    app.route('/p', callback=handler)
+
+    def on_418(err):
+        app.response.headers.append('Link', 'appended-%d' % n[0])
+        app.response.headers.append('X-Single', 'second-%d' % n[0])
+        return 'handled'
+    if case['cls'] == 'HTTPError':
+        app.error(418)(on_418)
+    else:
+        app.add_hook('after_request', lambda: (app.response.headers.append('Link', 'appended-%d' % n[0]), app.response.headers.append('X-Single', 'second-%d' % n[0])))
+    for k in range(1, 4):
+        r = call_app(app, make_environ('GET', '/p'))
+        if r.escaped is not None:
+            raise CheckFailure(f'request {k}: exception escaped {fmt_exc(r.escaped)}')
+        links = r.header_all('Link')
+        singles = r.header_all('X-Single')
+        want_links = list(case['own']) + ['appended-%d' % k]
+        if case['cls'] != 'HTTPError':
+            # (the after_request hook runs before the returned object is applied: its values are replaced by the prepared ones)
+            if links != list(case['own']) or singles != ['one']:
+                raise CheckFailure(f'request {k} answered by a prepared HTTPResponse ({case["how"]}): Link {links!r}, X-Single {singles!r}; prepared were {case["own"]!r} / ["one"]')
+        elif links != want_links or singles != ['one', 'second-%d' % k]:
+            raise CheckFailure(f'request {k} answered by one prepared HTTPError ({case["how"]}) whose handler appends a value: Link emitted as {links!r}, expected {want_links!r}; '
+                               f'X-Single {singles!r}, expected {["one", "second-%d" % k]!r}')
+        ctx.evals += 1
+    if list(prepared.headers.get('Link') if isinstance(prepared.headers.get('Link'), list) else [prepared.headers.get('Link')] if prepared.headers.get('Link') else []) != list(case['own']):
+        raise CheckFailure(f'the prepared response object itself now holds Link = {prepared.headers.get("Link")!r}; it was built with {case["own"]!r}')
+    ctx.nontrivial('shared:' + repr(case))
+
+
 def check_redirect(ctx, case):
     """redirect(target) writes the (joined) target into Location: whatever the target is, no value with CR / LF / NUL reaches the server; a clean target is
     answered with a 3xx whose Location decodes to a text that ends with the target."""
@@ -566,6 +614,11 @@ def run(ctx):
                     t = b_ + i_ if where == 'end' else b_[:len(b_) // 2] + i_ + b_[len(b_) // 2:]
                     ctx.guarded(check_redirect, {'redirect': True, 'target': t})
         ctx.count('redirect_grid')
+        for cls_ in ('HTTPError', 'HTTPResponse'):
+            for how in ('raise', 'return'):
+                for own in ([], ['a'], ['a', 'b'], ['a', 'b', 'c']):
+                    ctx.guarded(check_shared_response, {'shared_response': True, 'cls': cls_, 'how': how, 'own': own})
+        ctx.count('shared_response_object_grid')
         # set_cookie with every injection shape, plain / quoted / half-quoted, next to a clean header
         for s in shapes + ['abc\r\nX-Injected:1', 'abc\0', 'a\r\nSet-Cookie:z=1']:
             for q in ('%s', '"%s"', '"%s', '%s"', "'%s'"):
@@ -588,6 +641,8 @@ def run(ctx):
 
 
 def replay(ctx, case):
+    if case.get('shared_response'):
+        return check_shared_response(ctx, case)
     if case.get('redirect'):
         return check_redirect(ctx, case)
     if case.get('static'):
